@@ -66,13 +66,13 @@ class Mapper:
         if k == "reference":
             return self.ref(t["name"])
         if k == "array":
-            return Sequence[self.map(t["element"], f"{locus}/[]")]
+            return Sequence[self.map(t["element"], f"{locus}|[]")]
         if k == "map":
-            return Dict[self.map(t["key"], locus), self.map(t["value"], f"{locus}/{{}}")]
+            return Dict[self.map(t["key"], locus), self.map(t["value"], f"{locus}|{{}}")]
         if k == "tuple":
-            return Tuple[tuple(self.map(it, f"{locus}/{i}") for i, it in enumerate(t["items"]))]
+            return Tuple[tuple(self.map(it, f"{locus}|{i}") for i, it in enumerate(t["items"]))]
         if k == "or":
-            return Union[tuple(self.map(it, f"{locus}/{i}") for i, it in enumerate(t["items"]))]
+            return Union[tuple(self.map(it, f"{locus}|{i}") for i, it in enumerate(t["items"]))]
         if k == "literal":
             if len(t["value"]["properties"]) == 0:
                 return Any
